@@ -36,3 +36,12 @@ theorem C13_addPoint_increasing_ieee (pts : List (Rat × Rat)) (hpts : ∀ p ∈
   C13_addPoint_increasing ieee lawful_ieee pts hpts
 
 end MpVerif.C13
+
+namespace MpVerif.C13
+/-- non-vacuity of `C13_increasing_ieee`: the breakpoints of the concrete record `idFn` are doubles, and the run of the
+float-rounding counterexample succeeds with two breakpoints -/
+example : ∀ b ∈ idFn.bps, rndD b = b := by
+  intro b hb
+  simp only [idFn, List.mem_cons, List.mem_nil_iff, or_false] at hb
+  rcases hb with rfl | rfl <;> decide +kernel
+end MpVerif.C13
